@@ -122,6 +122,7 @@ pub enum ReverseStep {
     PopSpecial,
     PushSpecial(Special),
     DropLocal(usize),
+    SetLocals(Xvec),
     SwapRef(CellRef, Cell),
 }
 
@@ -1094,13 +1095,15 @@ impl State {
                 let idx = *i;
                 let val = self.pop_data()?;
                 let frame = self.top_frame()?;
-                if idx < frame.locals.len() {
-                    frame.locals[idx] = val;
-                } else {
-                    frame.locals.push_back_mut(val);
+                let old = frame.locals.clone();
+                // slots are assigned at compile time: a declaration that was skipped
+                // (untaken branch, zero-trip loop) must not shift the later ones
+                while frame.locals.len() <= idx {
+                    frame.locals.push_back_mut(NIL);
                 }
+                frame.locals.set_mut(idx, val);
                 if self.is_recording() {
-                    self.add_reverse_step(ReverseStep::DropLocal(idx));
+                    self.add_reverse_step(ReverseStep::SetLocals(old));
                 }
                 self.next_ip();
             }
@@ -1270,6 +1273,10 @@ impl State {
             ReverseStep::DropLocal(_) => {
                 let f = self.top_frame()?;
                 f.locals.drop_last_mut();
+            }
+            ReverseStep::SetLocals(old) => {
+                let f = self.top_frame()?;
+                f.locals = old;
             }
             ReverseStep::SwapRef(cref, val) => {
                 let idx = cref.index();
